@@ -407,6 +407,9 @@ class SBuiltin(SV):
         self.name, self.fn, self.self_val = name, fn, self_val
 
     def val(self):
+        av = getattr(self, "as_value", None)
+        if av is not None:
+            return av.val()  # an attribute of an outside object used as a value (see Engine.getattr)
         raise TypeError("builtin has no SMT value")
 
     def __repr__(self):
